@@ -1567,14 +1567,10 @@ fn aggregate_scalar_simd(
         }
         AggregateFunction::Min => {
             if let Some(a) = input.as_any().downcast_ref::<Int64Array>() {
-                let min = a.iter().flatten().min().unwrap_or(i64::MAX);
-                Arc::new(Int64Array::from(vec![min]))
+                // SQL: MIN over no (non-NULL) value is NULL, not a sentinel
+                Arc::new(Int64Array::from(vec![a.iter().flatten().min()]))
             } else if let Some(a) = input.as_any().downcast_ref::<Float64Array>() {
-                let min = a
-                    .iter()
-                    .flatten()
-                    .min_by(|a, b| a.partial_cmp(b).unwrap())
-                    .unwrap_or(f64::MAX);
+                let min = a.iter().flatten().min_by(|a, b| a.partial_cmp(b).unwrap());
                 Arc::new(Float64Array::from(vec![min]))
             } else if let Some(a) = input.as_any().downcast_ref::<StringArray>() {
                 let min = a.iter().flatten().min();
@@ -1583,8 +1579,7 @@ fn aggregate_scalar_simd(
                     None => Arc::new(StringArray::from(vec![Option::<&str>::None])),
                 }
             } else if let Some(a) = input.as_any().downcast_ref::<Date32Array>() {
-                let min = a.iter().flatten().min().unwrap_or(i32::MAX);
-                Arc::new(Date32Array::from(vec![min]))
+                Arc::new(Date32Array::from(vec![a.iter().flatten().min()]))
             } else {
                 return Err(QueryError::NotImplemented(format!(
                     "MIN not implemented for type {:?}",
@@ -1594,14 +1589,10 @@ fn aggregate_scalar_simd(
         }
         AggregateFunction::Max => {
             if let Some(a) = input.as_any().downcast_ref::<Int64Array>() {
-                let max = a.iter().flatten().max().unwrap_or(i64::MIN);
-                Arc::new(Int64Array::from(vec![max]))
+                // SQL: MAX over no (non-NULL) value is NULL, not a sentinel
+                Arc::new(Int64Array::from(vec![a.iter().flatten().max()]))
             } else if let Some(a) = input.as_any().downcast_ref::<Float64Array>() {
-                let max = a
-                    .iter()
-                    .flatten()
-                    .max_by(|a, b| a.partial_cmp(b).unwrap())
-                    .unwrap_or(f64::MIN);
+                let max = a.iter().flatten().max_by(|a, b| a.partial_cmp(b).unwrap());
                 Arc::new(Float64Array::from(vec![max]))
             } else if let Some(a) = input.as_any().downcast_ref::<StringArray>() {
                 let max = a.iter().flatten().max();
@@ -1610,8 +1601,7 @@ fn aggregate_scalar_simd(
                     None => Arc::new(StringArray::from(vec![Option::<&str>::None])),
                 }
             } else if let Some(a) = input.as_any().downcast_ref::<Date32Array>() {
-                let max = a.iter().flatten().max().unwrap_or(i32::MIN);
-                Arc::new(Date32Array::from(vec![max]))
+                Arc::new(Date32Array::from(vec![a.iter().flatten().max()]))
             } else {
                 return Err(QueryError::NotImplemented(format!(
                     "MAX not implemented for type {:?}",
